@@ -67,6 +67,7 @@ func c03Fields() []c03Field {
 		{"!(key = 'a001')", "", true}, {"key != 'a002' & value != '2'", "", true}, {"key = 'a001' | value = '3'", "", true},
 		{"'x'", "", true}, {"1", "", true}, {"1.5", "", true}, {"true", "", true}, {"1 + 2", "", true}, {"upper('a' + 'b')", "", true},
 		{"float(value) = 1.5", "num", true}, {"strlen(upper(key) + lower(value))", "", true},
+		{"key + 'a' < key + 'b'", "", true}, {"(value + 'x') + (value + 'y')", "", true}, {"key + value = key + '1'", "", true},
 	}
 }
 
@@ -87,6 +88,8 @@ func c03Wheres() []c03Where {
 		{"1 in il", "num", "int_list(1, int(value)) as il"},
 		{"value in split('1,3,a', ',')", "", ""},
 		{"key = 'a002'", "", ""},
+		{"key > 'a000' & n > 1", "num", "int(value) as n"}, {"key between 'a001' and 'a009' & l > 1", "", "strlen(value) as l"},
+		{"key ^= 'a0' & value != '2' & u != 'A003'", "", "upper(key) as u"}, {"value != '1' & n + 1 > 1", "num", "int(value) as n"},
 	}
 }
 
